@@ -5,7 +5,17 @@
    its header_state; a file is the list of its csv records (column line first); [hashf] is the
    header hash function (any function: the one that labelled the rows); [startup hashf bsz ckh ckhash
    genesis prepared table file] is database.Init: (started?, table afterwards); bsz is the import
-   batch size (500 in the code), (ckh, ckhash) the newest checkpoint. *)
+   batch size (500 in the code), (ckh, ckhash) the newest checkpoint.
+
+   Composition with the chain model: C17_roundtrip and C17_roundtrip_startup are stated for any list of
+   rows with [chain_ok hashf rows] (heights 0,1,2,..; prev links; hash = hashf of the fields; work =
+   calc_work bits; cumulated work = running sum) and [Forall fields_ok rows] (the value ranges of the Go
+   field types); C17_export_selects_longest says that the export of a table is [export rows] as soon as
+   [rows] is the height-ordered list of its LONGEST_CHAIN rows.  The three hypotheses (plus NoDup of the
+   hashes: the hash is the primary key) are to be discharged from Valid/reachable stores by the chain model.
+
+   History: before service commit 6243e75 a refused import left its rows behind and the next start
+   served them (model startup_old, witnesses in coq/theories/ExportImportHistory.v, not used here). *)
 From Coq Require Import ZArith NArith List String.
 From BHS Require Import Work ExportImport ExportImportProofs.
 Import ListNotations.
@@ -19,7 +29,7 @@ Proof. exact roundtrip. Qed.
 
 (* ... and through the whole start-up path (batches, ON CONFLICT DO NOTHING, consistency validation):
    an empty database started on the exported file holds exactly the exported chain, every row on
-   the longest chain.  Hash values of a store are distinct (the hash is the primary key). *)
+   the longest chain. *)
 Theorem C17_roundtrip_startup : forall (hashf : src -> N) (bsz : nat) (ckh : Z) (ckhash : N) (genesis : xrow),
   (0 < bsz)%nat -> forall (rows : list xrow) (r : xrow),
   chain_ok hashf rows -> Forall fields_ok rows -> NoDup (map x_hash rows) ->
@@ -28,18 +38,19 @@ Theorem C17_roundtrip_startup : forall (hashf : src -> N) (bsz : nat) (ckh : Z) 
 Proof. exact roundtrip_startup. Qed.
 
 (* What is exported from a table is its longest-chain rows in height order: stale and orphan headers
-   are left out (the row selection of the SQL query; [longest_of_sorted] below ties it to a chain). *)
+   are left out, the order in which the rows reached the table does not matter. *)
 Theorem C17_export_selects_longest : forall (t : table) (rows : list xrow),
   Permutation.Permutation (map fst (filter (fun p => N.eqb (snd p) st_longest) t)) rows ->
   heights_from 0 rows -> export_db t = export rows.
 Proof. exact export_db_longest. Qed.
 
-(* Bad files are refused.  (1) A record with a wrong number of fields or a field that does not parse
-   (strconv range checks: int32 version, uint32 nonce and bits, int64 timestamp, <= 64 hex digits). *)
+(* Bad files make start-up fail, and nothing of them stays in the database.
+   (1) A record with a wrong number of fields or a field that does not parse (strconv range checks:
+   int32 version, uint32 nonce and bits, int64 timestamp, <= 64 hex digits). *)
 Theorem C17_import_refuses_malformed : forall (hashf : src -> N) (bsz : nat) (ckh : Z) (ckhash : N) (genesis : xrow),
   (0 < bsz)%nat -> forall (hdr : record) (recs : list record),
   Exists (fun rec => good_record (List.length hdr) rec = false) recs ->
-  fst (startup hashf bsz ckh ckhash genesis true [] (Some (hdr :: recs))) = false.
+  startup hashf bsz ckh ckhash genesis true [] (Some (hdr :: recs)) = (false, []).
 Proof. exact refuses_malformed_row. Qed.
 
 (* (2) no readable file, or a file without even the column line *)
@@ -51,20 +62,20 @@ Proof. exact refuses_missing_file. Qed.
 (* (3) inconsistent count / heights: no rows at all, or a row lost to a hash conflict *)
 Theorem C17_import_refuses_no_rows : forall (hashf : src -> N) (bsz : nat) (ckh : Z) (ckhash : N) (genesis : xrow),
   (0 < bsz)%nat -> forall f, import hashf f = Ok [] ->
-  fst (startup hashf bsz ckh ckhash genesis true [] (Some f)) = false.
+  startup hashf bsz ckh ckhash genesis true [] (Some f) = (false, []).
 Proof. exact refuses_no_rows. Qed.
 
 Theorem C17_import_refuses_wrong_count : forall (hashf : src -> N) (bsz : nat) (ckh : Z) (ckhash : N) (genesis : xrow),
   (0 < bsz)%nat -> forall f rows, import hashf f = Ok rows ->
   List.length (db_insert_all [] rows) <> List.length rows ->
-  fst (startup hashf bsz ckh ckhash genesis true [] (Some f)) = false.
+  startup hashf bsz ckh ckhash genesis true [] (Some f) = (false, []).
 Proof. exact refuses_wrong_count. Qed.
 
 (* (4) the block at the newest checkpoint height is missing or has a different hash *)
 Theorem C17_import_refuses_checkpoint : forall (hashf : src -> N) (bsz : nat) (ckh : Z) (ckhash : N) (genesis : xrow),
   (0 < bsz)%nat -> forall f rows, import hashf f = Ok rows ->
   ~ (exists r, 0 <= ckh /\ nth_error rows (Z.to_nat ckh) = Some r /\ x_hash r = ckhash) ->
-  fst (startup hashf bsz ckh ckhash genesis true [] (Some f)) = false.
+  startup hashf bsz ckh ckhash genesis true [] (Some f) = (false, []).
 Proof. exact refuses_checkpoint. Qed.
 
 (* All refusals at once: whatever a start on an empty database accepts is a complete import of the
@@ -76,55 +87,29 @@ Theorem C17_import_refuses : forall (hashf : src -> N) (bsz : nat) (ckh : Z) (ck
     exists r, 0 <= ckh /\ nth_error rows (Z.to_nat ckh) = Some r /\ x_hash r = ckhash.
 Proof. exact accepted_is_import. Qed.
 
+(* A later start on the same database does not silently accept what the failed import left behind:
+   a refused import leaves nothing behind, ... *)
+Theorem C17_refused_import_leaves_nothing : forall (hashf : src -> N) (bsz : nat) (ckh : Z) (ckhash : N) (genesis : xrow),
+  forall f t, startup hashf bsz ckh ckhash genesis true [] f = (false, t) -> t = [].
+Proof. exact refused_leaves_nothing. Qed.
+
+(* ... so the later start skips neither the import nor the validation: it behaves exactly as a start
+   on a fresh database with the file it is given, ... *)
+Theorem C17_second_start_revalidates : forall (hashf : src -> N) (bsz : nat) (ckh : Z) (ckhash : N) (genesis : xrow),
+  forall f1 t1, startup hashf bsz ckh ckhash genesis true [] f1 = (false, t1) ->
+  forall f2, startup hashf bsz ckh ckhash genesis true t1 f2 = startup hashf bsz ckh ckhash genesis true [] f2.
+Proof. exact second_start_revalidates. Qed.
+
+(* ... and whatever it accepts is what a clean import of that file produces. *)
+Theorem C17_second_start : forall (hashf : src -> N) (bsz : nat) (ckh : Z) (ckhash : N) (genesis : xrow),
+  second_start_sound (startup hashf bsz ckh ckhash genesis).
+Proof. exact second_start. Qed.
+
 (* A database that already holds headers is never overwritten by an import. *)
 Theorem C17_nonempty_db_untouched : forall (hashf : src -> N) (bsz : nat) (ckh : Z) (ckhash : N) (genesis : xrow),
   forall (t : table) (f : option file), t <> [] ->
   startup hashf bsz ckh ckhash genesis true t f = (true, t).
 Proof. exact nonempty_untouched. Qed.
-
-(* "A later start on the same database does not silently accept what the failed import left behind":
-     forall hashf bsz ckh ckhash genesis, 0 < bsz -> second_start_sound (startup hashf bsz ckh ckhash genesis)
-   is FALSE for the code as it is (known finding C17-second-start-accepts-leftovers): batches committed
-   before a bad row stay, and so does everything when the validation fails; the next start sees
-   count > 0 and skips import and validation. *)
-Theorem C17_second_start_refuted :
-  ~ (forall hashf bsz ckh ckhash genesis, (0 < bsz)%nat -> second_start_sound (startup hashf bsz ckh ckhash genesis)).
-Proof. exact second_start_refuted. Qed.
-
-(* the same with the batch size of the code: a failed validation leaves every row behind *)
-Theorem C17_second_start_refuted_500 :
-  ~ (forall hashf ckh ckhash genesis, second_start_sound (startup hashf 500 ckh ckhash genesis)).
-Proof. exact second_start_refuted_500. Qed.
-
-(* The defect in general, for every batch size: the rows of the complete batches in front of the first
-   bad record (wrong field count, or a field that does not parse) stay in the table, and as soon as
-   there is one such batch every later start, whatever file it is given, serves them without error. *)
-Theorem C17_leftovers_served : forall (hashf : src -> N) (bsz : nat) (ckh : Z) (ckhash : N) (genesis : xrow),
-  (0 < bsz)%nat -> forall (hdr : record) (g : list record) (bad : record) (rest : list record) rows st1,
-  import_recs hashf (List.length hdr) g ist0 = Ok (rows, st1) -> bad_at hashf (List.length hdr) st1 bad ->
-  let left := db_insert_all [] (firstn (List.length rows / bsz * bsz) rows) in
-  startup hashf bsz ckh ckhash genesis true [] (Some (hdr :: g ++ bad :: rest)) = (false, left) /\
-  ((bsz <= List.length rows)%nat ->
-   left <> [] /\ forall f2, startup hashf bsz ckh ckhash genesis true left f2 = (true, left)).
-Proof. exact leftovers_served. Qed.
-
-(* With the proposed repair (build/proposed-fixes/C17-1.diff, model startup_fixed) the full statement holds,
-   and nothing else changes: same verdicts, same table whenever the start succeeds. *)
-Theorem C17_second_start_fixed : forall (hashf : src -> N) (bsz : nat) (ckh : Z) (ckhash : N) (genesis : xrow),
-  second_start_sound (startup_fixed hashf bsz ckh ckhash genesis).
-Proof. exact second_start_fixed. Qed.
-
-Theorem C17_fixed_refusal_leaves_nothing : forall (hashf : src -> N) (bsz : nat) (ckh : Z) (ckhash : N) (genesis : xrow),
-  forall f, fst (startup hashf bsz ckh ckhash genesis true [] f) = false ->
-  startup_fixed hashf bsz ckh ckhash genesis true [] f = (false, []).
-Proof. exact refuses_fixed. Qed.
-
-Theorem C17_fixed_same_otherwise : forall (hashf : src -> N) (bsz : nat) (ckh : Z) (ckhash : N) (genesis : xrow),
-  forall p t f,
-  fst (startup_fixed hashf bsz ckh ckhash genesis p t f) = fst (startup hashf bsz ckh ckhash genesis p t f) /\
-  (fst (startup hashf bsz ckh ckhash genesis p t f) = true ->
-   startup_fixed hashf bsz ckh ckhash genesis p t f = startup hashf bsz ckh ckhash genesis p t f).
-Proof. exact fixed_same_otherwise. Qed.
 
 Print Assumptions C17_roundtrip.
 Print Assumptions C17_roundtrip_startup.
@@ -135,10 +120,7 @@ Print Assumptions C17_import_refuses_no_rows.
 Print Assumptions C17_import_refuses_wrong_count.
 Print Assumptions C17_import_refuses_checkpoint.
 Print Assumptions C17_import_refuses.
+Print Assumptions C17_refused_import_leaves_nothing.
+Print Assumptions C17_second_start_revalidates.
+Print Assumptions C17_second_start.
 Print Assumptions C17_nonempty_db_untouched.
-Print Assumptions C17_second_start_refuted.
-Print Assumptions C17_second_start_refuted_500.
-Print Assumptions C17_leftovers_served.
-Print Assumptions C17_second_start_fixed.
-Print Assumptions C17_fixed_refusal_leaves_nothing.
-Print Assumptions C17_fixed_same_otherwise.
